@@ -17,5 +17,6 @@ func main() {
 	fmt.Println(synth.Channels(4))
 	fmt.Println(synth.Channels(3))
 	fmt.Println(synth.CondQueue(5))
+	fmt.Println(synth.Shadow())
 	fmt.Println(synth.Summary())
 }
